@@ -143,6 +143,8 @@ func keyWire(t *cqlT, k int) []byte {
 		return be(8, uint64(k))
 	case "varchar":
 		return []byte(keyText(k))
+	case "blob":
+		return []byte{byte(k), 0xAB, 0x01}
 	}
 	return nil
 }
